@@ -79,6 +79,7 @@ fn main() {
         "clirefuse" => cli::suite_clirefuse(&out, seed, thorough, &mut st),
         "clicorrupt" => cli::suite_clicorrupt(&out, seed, thorough, &mut st),
         "cliwrites" => cli::suite_cliwrites(&out, seed, thorough, &mut st),
+        "clihuge" => cli::suite_clihuge(&out, seed, thorough, &mut st),
         "clitrace" => cli::suite_clitrace(&out, seed, thorough, &mut st),
         "clifault" => cli::suite_clifault(&out, seed, thorough, &mut st),
         "ioread" => http::suite_ioread(&out, seed, thorough, &mut st),
